@@ -224,3 +224,29 @@ def run(ck, replay=None):
     ck.cov['exhaustive'] = not quick
     if not ck.violations and len(nontriv) < 50:
         raise common.Infra('vacuous: only %d non-trivial behaviours' % len(nontriv))
+
+
+def selftest(ck):
+    """binding demonstration: a corrupted registry log must be rejected by NamedPipesTrace.tla"""
+    import copy
+    import json
+    mxh = common.build_mxh()
+    tr = os.path.join(ck.scratch, 'st.ndjson')
+    common.run([mxh, 'named-drive', '-seed', '5', '-n', '4', '-ops', '150', '-out', tr], timeout=600, check=True)
+    rows = common.read_ndjson(tr)
+
+    def validate(rs, label):
+        return common.tlc('NamedPipesTrace', 'NamedPipesTrace.cfg', os.path.join(ck.scratch, label), workers=1, timeout=900,
+                          files={'trace.ndjson': ''.join(json.dumps(x) + '\n' for x in rs)})
+    ok = not validate(rows, 's0').violated
+    common.log('selftest: pristine log -> %s' % ('accepted' if ok else 'REJECTED'))
+    i = [k for k, x in enumerate(rows) if x['ev'] == 'np.create' and x['ok'] == 0][0]
+    bad = copy.deepcopy(rows)
+    bad[i]['ok'] = 1                        # a create of a live name that "succeeds"
+    r1 = validate(bad, 's1')
+    common.log('selftest: turned a refused create into a success -> %s' % ('rejected' if r1.violated else 'ACCEPTED'))
+    i = [k for k, x in enumerate(rows) if x['ev'] == 'np.close' and x['ok'] == 1][0]
+    bad = rows[:i] + rows[i + 1:]           # a hook that is missing: the close that started a timer
+    r2 = validate(bad, 's2')
+    common.log('selftest: removed a successful close event -> %s' % ('rejected' if r2.violated else 'ACCEPTED (a later timer event has no timer)'))
+    return ok and bool(r1.violated)
